@@ -95,6 +95,11 @@ def run(ctx, res):
     cr = R.corr(ctx.pid, "raire_rnd", R.IMPORTS, "raire_case", rnd, R.case_lit, "agree_c04", shard=40, show="show_c04")
     res.corr.append(("compute_raire_assertions output vs verified check_output / possible (RaireCheck.v), random profiles",
                      cr, R.case_json))
+    # the search itself, output for output, against the fuelled model RaireAlgo.raire (exact difficulties)
+    ac = R.algo_cases(ex, rng) + R.algo_cases(rnd, rng)
+    cr = R.corr(ctx.pid, "algo", R.IMPORTS, "raire_case * list cand", ac, R.algo_lit, "agree_algo", shard=250, show="show_algo")
+    res.corr.append(("compute_raire_assertions assertion list vs RaireAlgo.raire (model of the search)", cr, R.case_json))
+    res.evaluations += len(ac)
     vc = vote_cases(rng, ctx.n(300, 3000))
     cr2 = R.corr(ctx.pid, "votes", R.IMPORTS, "list ballot * assertion * list bool * list bool", vc, vote_lit,
                      "agree_votes", shard=250, show="show_votes")
